@@ -24,7 +24,7 @@ pub static DEF: PropertyDef = PropertyDef {
     exhaustive_note: "none (sampled programs and histories)",
     generate,
     execute,
-    must_hit: &["fault.message.warning_delivered", "fault.message.error_delivered", "fault.message.version_warning", "fault.message.continue_after_warning", "fault.message.reset_after_error", "fault.slice.message_in_sliced_continue", "fault.message.silent_site_passed", "fault.message.redirect_after_error", "fault.message.error_in_host_evaluation"],
+    must_hit: &["fault.message.warning_delivered", "fault.message.error_delivered", "fault.message.version_warning", "fault.message.continue_after_warning", "fault.message.reset_after_error", "fault.slice.message_in_sliced_continue", "fault.message.silent_site_passed", "fault.message.redirect_after_error", "fault.message.error_in_host_evaluation", "fault.message.double_site_delivered"],
     timeout_s: 30,
     hang_class: None,
     sub_builds: &[],
@@ -289,6 +289,10 @@ fn execute(case: &Case) -> CaseResult {
                 }
                 continue;
             }
+            if m.contains("'ud_") {
+                // a double site raises the same warning twice in one line: counted below, not a re-delivery
+                continue;
+            }
             if matches!(op, Op::Eval { .. }) {
                 // the host may evaluate the failing function as often as it likes: each evaluation raises its
                 // messages anew; within one evaluation none may come twice
@@ -319,6 +323,16 @@ fn execute(case: &Case) -> CaseResult {
             }
         }
 
+        // a double site: the line `dsite dN` calls twice a function that warns; both warnings arrive with the line
+        if let Some(pos) = line_text.find(" dsite d") {
+            let id: String = line_text[pos + 8..].chars().take_while(|c| c.is_ascii_digit()).collect();
+            let needle = format!("'ud_{id}'");
+            let n = h_msgs.iter().filter(|(w, m)| *w && m.contains(&needle)).count();
+            res.stats.inc("fault.message.double_site_delivered");
+            if n != 2 {
+                fail!("message:lost", "warning", "a line that raises the same warning twice delivered it another number of times", at.clone(), format!("2 warnings naming {needle}"), format!("{n}"));
+            }
+        }
         // a silent warning site (a statement without text after the line `pre-silent wsN`) has run once its
         // `post-silent wsN` line is delivered or the story has stopped at choices or its end: by then its
         // warning must have been delivered
